@@ -112,6 +112,16 @@ fn universe() -> &'static Vec<String> {
         ] {
             v.push(w.to_string());
         }
+        // every string literal of the generated Lean tables, as a CANDIDATE spelling only (whether a
+        // context accepts it is still asked of the implementation): a table name outside the built-in
+        // universe is then probed like any other instead of only showing up in the `names` comparison
+        if let Ok(text) = std::fs::read_to_string("lean/MdModel/Gen/Regs.lean") {
+            for (i, piece) in text.split('"').enumerate() {
+                if i % 2 == 1 && piece.len() <= 24 && !piece.contains('\n') {
+                    v.push(piece.to_string());
+                }
+            }
+        }
         v.sort();
         v.dedup();
         v
@@ -343,6 +353,22 @@ fn oracle_valid(info: &NameInfo, n: &str, valid: &Option<Vec<String>>) -> Option
     }
 }
 
+/// class of a "should be valid but is not" failure: which kind of set element was overlooked.
+///   validity-not-honoured:<CTX>            the set holds the queried name itself
+///   validity-missed-canonical-in-set:<CTX> the set holds the canonical (REGISTERS) name of the register
+///   validity-missed-alias-in-set:<CTX>     the set only holds another alias of the register
+fn missed_class(info: &NameInfo, ctx: &str, n: &str, valid: &Option<Vec<String>>) -> String {
+    let s = valid.as_ref().map(|v| v.as_slice()).unwrap_or(&[]);
+    let canon = info.canon.get(n).cloned().flatten();
+    if s.iter().any(|e| e == n) {
+        format!("validity-not-honoured:{ctx}")
+    } else if canon.map_or(false, |c| s.iter().any(|e| e == c)) {
+        format!("validity-missed-canonical-in-set:{ctx}")
+    } else {
+        format!("validity-missed-alias-in-set:{ctx}")
+    }
+}
+
 fn run<T: Raw>(case: &Case) -> ImplResult {
     let mut res = ImplResult::default();
     let info = name_info::<T>();
@@ -364,6 +390,8 @@ fn run<T: Raw>(case: &Case) -> ImplResult {
     let is_accepted = |n: &str| info.canon.contains_key(n);
     let mut outs: Vec<String> = vec![];
     let mut touched_known = false;
+    let mut wrote = false;
+    let mut read_after_write = false;
     macro_rules! fail {
         ($class:expr, $($arg:tt)*) => { res.oracle.push(($class.to_string(), format!($($arg)*))) };
     }
@@ -458,6 +486,7 @@ fn run<T: Raw>(case: &Case) -> ImplResult {
                                 fail!("set-touches-foreign-bytes", "set {n}: serialised context differs at bytes {lo}..={hi}, wider than one register");
                             }
                         }
+                        wrote = true;
                         "ok".into()
                     }
                 }
@@ -507,11 +536,10 @@ fn run<T: Raw>(case: &Case) -> ImplResult {
                                 (true, Some(v)) => fail!("get-differs-from-always", "{kind}({n}) = {v:x}, get_register_always = {always:?}"),
                                 (false, None) => {}
                                 (true, None) => {
-                                    let direct = case.valid.as_ref().map_or(false, |s| s.contains(&n));
-                                    fail!(if direct { "validity-not-honoured" } else { "validity-missed-through-alias" },
+                                    fail!(missed_class(&info, T::NAME, &n, &case.valid),
                                         "{kind}({n}) = None although the validity set {:?} names the same register", case.valid.as_ref().unwrap());
                                 }
-                                (false, Some(v)) => fail!("validity-not-honoured", "{kind}({n}) = {v:x} although no element of {:?} names that register", case.valid.as_ref().unwrap()),
+                                (false, Some(v)) => fail!(format!("validity-not-honoured:{}", T::NAME), "{kind}({n}) = {v:x} although no element of {:?} names that register", case.valid.as_ref().unwrap()),
                             }
                         }
                     }
@@ -566,11 +594,10 @@ fn run<T: Raw>(case: &Case) -> ImplResult {
                         if is_accepted(&n) {
                             if let Some(want) = oracle_valid(&info, &n, &case.valid) {
                                 if want && !b {
-                                    let direct = case.valid.as_ref().map_or(false, |s| s.contains(&n));
-                                    fail!(if direct { "validity-not-honoured" } else { "validity-missed-through-alias" },
+                                    fail!(missed_class(&info, T::NAME, &n, &case.valid),
                                         "register_is_valid({n}) = false although the validity set {:?} names the same register", case.valid);
                                 } else if !want && b {
-                                    fail!("validity-not-honoured", "register_is_valid({n}) = true although no element of {:?} names that register", case.valid);
+                                    fail!(format!("validity-not-honoured:{}", T::NAME), "register_is_valid({n}) = true although no element of {:?} names that register", case.valid);
                                 }
                             }
                         } else if b && set_is_known {
@@ -626,8 +653,8 @@ fn run<T: Raw>(case: &Case) -> ImplResult {
                         if let Some(want) = want {
                             let got: Vec<String> = ps.iter().map(|(n, _)| n.clone()).collect();
                             if got != want {
-                                let missed_alias = kind == "mvregs" && want.iter().any(|w| !got.contains(w)) && got.iter().all(|g| want.contains(g));
-                                fail!(if missed_alias { "validity-missed-through-alias" } else { "enumeration-differs" },
+                                let missed: Option<&String> = if kind == "mvregs" && got.iter().all(|g| want.contains(g)) { want.iter().find(|w| !got.contains(w)) } else { None };
+                                fail!(match missed { Some(w) => missed_class(&info, T::NAME, w, &case.valid), None => "enumeration-differs".to_string() },
                                     "{kind} lists {got:?}, expected exactly {want:?} (validity {:?})", case.valid);
                             }
                         }
@@ -703,9 +730,16 @@ fn run<T: Raw>(case: &Case) -> ImplResult {
                 return res;
             }
         };
+        if wrote && kind != "set" && (kind == "dump" || kind == "regs" || kind == "mregs" || kind == "vregs" || kind == "mvregs" || name.as_ref().map_or(false, |n| is_accepted(n))) {
+            read_after_write = true;
+        }
         outs.push(out);
     }
-    res.nontrivial = touched_known || case.ops.iter().any(|o| !o.contains(':'));
+    // non-trivial: a named register was written and then observed, or a validity set was consulted
+    // for a name the context accepts, or the tables were enumerated
+    res.nontrivial = read_after_write
+        || (touched_known && case.valid.is_some())
+        || case.ops.iter().any(|o| matches!(o.as_str(), "names" | "regs" | "mregs" | "vregs" | "mvregs"));
     res.out = outs.join(";");
     res
 }
@@ -776,7 +810,7 @@ impl Engine for Regs {
         "regs"
     }
     fn rule(&self) -> String {
-        "case = (context type, validity All|Some(S), op script on an initially zero context). Exhaustive part: for each of the 9 context types, every name the implementation accepts (REGISTERS + every alias found by probing a ~5000-name universe with set_register/memoize_register) x values {0,1,all-ones,random} for set-then-read-everything (all accepted names, dump of the register cells, sp/ip accessors, registers()/format), and x validity patterns {empty, every singleton by name and by alias, REGISTERS, all accepted names} for register_is_valid/get_register/MinidumpContext::get_register of every accepted name plus valid_registers at both levels; every universe name the context does not accept under {All, Some(empty), Some(REGISTERS)} on all Option-returning methods. Random part: random scripts, random subsets incl. aliases, random unknown names (unicode, NUL, long, near-miss). non-trivial = touches at least one accepted name or an enumeration; distinct = distinct case line".into()
+        "case = (context type, validity All|Some(S), op script on an initially zero context). Exhaustive part: for each of the 9 context types, every name the implementation accepts (REGISTERS + every alias found by probing a ~5000-name universe with set_register/memoize_register) x values {0,1,all-ones,random} for set-then-read-everything (all accepted names, dump of the register cells, sp/ip accessors, registers()/format), and x validity patterns {empty, every singleton by name and by alias, REGISTERS, all accepted names} for register_is_valid/get_register/MinidumpContext::get_register of every accepted name plus valid_registers at both levels; every universe name the context does not accept under {All, Some(empty), Some(REGISTERS)} on all Option-returning methods. Random part: random scripts, random subsets incl. aliases, random unknown names (unicode, NUL, long, near-miss). non-trivial = a named register is written and then observed, or a Some(S) validity set is consulted for an accepted name, or an enumeration is listed; distinct = distinct case line".into()
     }
     fn exhaustive_part(&self) -> Option<String> {
         Some("9 context types x all accepted names/aliases x {0,1,all-ones,random} (set/get/alias/other-cells-unchanged) and x validity {empty, each singleton by name and by alias, full} (validity through aliases, enumerations); all ~5000 universe names not accepted, per context, on memoize/set/register_is_valid/get_register under All, Some(empty), Some(full)".into())
